@@ -42,3 +42,50 @@ Print Assumptions C19_query_sees_one_config.
 Example C19_example : forall st,
   reload ex_args st ex_fs_bad = st /\ load ex_args ex_fs <> None /\ reload ex_args st ex_fs = reload ex_args [] ex_fs.
 Proof. exact ex_reload. Qed.
+
+(* ====================================================================== *)
+(* reload over TEXT: C19 composed with C12 / C11 / C14 (Config/ConfigText.v) *)
+(* ====================================================================== *)
+From RV Require Import Config.ConfigText.
+From RV Require Hosts.HostsModel ZoneFile.ZoneFileModel.
+
+(* One iteration of reload_task over the files as TEXT ([reload_text ip a st t] = reload after
+   zone_from_file / hosts_from_file = read_to_string + Zone::deserialise / Hosts::deserialise on every
+   file).  "Nothing" is characterised on the texts themselves: the previous state stays -- all of it --
+   exactly when a directory cannot be listed, a file of the effective sequence cannot be read, or a
+   parser returns an error on a file's text (one bad file among many good ones keeps everything);
+   otherwise the state becomes the freshly loaded configuration, whatever it was before.  No premise:
+   the parsers are total and the names they produce well formed. *)
+Theorem C19_reload_text_all_or_nothing : forall ip a st t,
+  let bad :=
+    (exists d, In d (a_zone_dirs a ++ a_hosts_dirs a) /\ alookup leqb d (tfs_dirs t) = None) \/
+    (exists r, In r (tzone_seq a t) /\
+               (tfs_read t r = None \/ exists s e, tfs_read t r = Some s /\ ZoneFileModel.deserialise ip s = Err e)) \/
+    (exists r, In r (thosts_seq a t) /\
+               (tfs_read t r = None \/ exists s e, tfs_read t r = Some s /\ HostsModel.deserialise s = Err e)) in
+  (bad -> load_text ip a t = None /\ reload_text ip a st t = st)
+  /\ (~ bad -> exists z, load_text ip a t = Some z /\ reload_text ip a st t = z /\ forall st', reload_text ip a st' t = z).
+Proof. exact reload_text_all_or_nothing. Qed.
+Print Assumptions C19_reload_text_all_or_nothing.
+
+(* any interleaving of queries and SIGUSR1s over text file systems: every reply is computed from ONE
+   state of the history, and every state is the initial one or the COMPLETE load of one text file
+   system none of whose files was bad *)
+Theorem C19_text_query_sees_one_config : forall ip a st evs,
+  Forall2 (fun q r => exists s, In s (states_text ip a st evs) /\ r = query s q)
+          (flat_map (fun e => match e with TEvQuery q => [q] | TEvReload _ => [] end) evs) (run_text ip a st evs)
+  /\ (forall s, In s (states_text ip a st evs) ->
+        s = st \/ exists t, In (TEvReload t) evs /\ load_text ip a t = Some s /\ ~ text_config_bad ip a t).
+Proof. exact run_text_one_config. Qed.
+Print Assumptions C19_text_query_sees_one_config.
+
+(* the hypotheses are satisfiable: a loadable and an unloadable text file system for the same arguments *)
+Example C19_text_example : forall st,
+  reload_text ZfInstance.zf_codec ex_targs st ex_tfs_bad = st
+  /\ load_text_zf ex_targs ex_tfs <> None
+  /\ reload_text ZfInstance.zf_codec ex_targs st ex_tfs = reload_text ZfInstance.zf_codec ex_targs [] ex_tfs.
+Proof.
+  intro st. split; [apply reload_failure; exact (proj1 ex_text_bad)|].
+  assert (H : load_text_zf ex_targs ex_tfs <> None) by (vm_compute; discriminate).
+  split; [exact H|]. apply reload_forgets. exact H.
+Qed.
